@@ -44,8 +44,7 @@ func (C08) ID() string { return "C08" }
 // ordinary runs so the defects do not mask everything else; a knob run enables one.
 var c8Knobs = []string{
 	"k_existsid",   // call MailboxExistsWithID at all
-	"k_updremote",  // call UpdateRemoteMessageID at all
-	"k_rmbulk",     // RemoveMessagesFromMailbox with more than db.ChunkLimit ids
+	"k_updremote",  // UpdateRemoteMessageID on a message that is in a mailbox
 	"k_noflags",    // Add(Perm)FlagsToAllMailboxes with an empty flag list
 	"k_quote",      // Add(Perm)FlagsToAllMailboxes with a flag containing '
 	"k_flagcase",   // message flags in varying letter case
@@ -116,7 +115,7 @@ func (C08) Generate(r *core.Rand, tier string, idx int) *core.Scenario {
 		knob = c8Knobs[r.Intn(len(c8Knobs))]
 		sc.Cfg[knob] = 1
 	}
-	bulk := r.P(1, 4) || knob == "k_rmbulk"
+	bulk := r.P(1, 4)
 	if bulk {
 		sc.Cfg["bulk"] = 1
 	}
@@ -125,12 +124,13 @@ func (C08) Generate(r *core.Rand, tier string, idx int) *core.Scenario {
 		switch name {
 		case "MailboxExistsWithID":
 			return knob == "k_existsid"
-		case "UpdateRemoteMessageID":
-			return knob == "k_updremote"
 		}
 		return true
 	}
 	pick := func(names []string) string {
+		if knob == "k_existsid" && r.P(1, 5) {
+			return "MailboxExistsWithID"
+		}
 		for {
 			n := names[r.Intn(len(names))]
 			if enabled(n) {
@@ -165,12 +165,6 @@ func (C08) Generate(r *core.Rand, tier string, idx int) *core.Scenario {
 		// enough messages for the longest list, some of them in a mailbox
 		target := c8ListMethods[idx%len(c8ListMethods)]
 		tlen := c8Bounds[(idx/len(c8ListMethods))%len(c8Bounds)]
-		if knob == "k_rmbulk" {
-			target = "RemoveMessagesFromMailbox"
-			if tlen < 1001 {
-				tlen = 1001 + r.Intn(3)*500
-			}
-		}
 		sc.Cfg["target_len"] = tlen
 		create := tlen
 		if target != "CreateMessages" {
@@ -333,7 +327,9 @@ const c8User = "user"
 func (x *c8Exec) knob(k string) bool { return x.sc.Cfg[k] != 0 }
 func (x *c8Exec) failed() bool       { return x.v != nil || x.infra != nil }
 
-func (x *c8Exec) fail(oracle, format string, args ...any) {
+// fail records the first violation.  sig names the violation class (method or read-back
+// item) without any values, so that it is stable under shrinking.
+func (x *c8Exec) fail(oracle, sig, format string, args ...any) {
 	if x.v != nil {
 		return
 	}
@@ -341,7 +337,7 @@ func (x *c8Exec) fail(oracle, format string, args ...any) {
 	if len(d) > 900 {
 		d = d[:900] + "..."
 	}
-	x.v = &core.Violation{Property: "C08", Oracle: oracle, Detail: d, Sig: core.NormSig(oracle, d), Step: x.step}
+	x.v = &core.Violation{Property: "C08", Oracle: oracle, Detail: d, Sig: oracle + ": " + sig, Step: x.step}
 	x.tr.Event("VIOLATION", oracle, d)
 }
 
@@ -382,7 +378,7 @@ func (x *c8Exec) expect(method, args string, err error, want string, write bool)
 		ok = true
 	}
 	if !ok {
-		x.fail("errclass", "%s(%s): model expects %s, implementation returned %s (%v)", method, args, want, got, err)
+		x.fail("errclass", method+" expects "+want+" got "+got, "%s(%s): model expects %s, implementation returned %s (%v)", method, args, want, got, err)
 		return false
 	}
 	if got != "nil" {
@@ -407,7 +403,7 @@ func (x *c8Exec) expect(method, args string, err error, want string, write bool)
 func (x *c8Exec) call(method string, f func()) {
 	defer func() {
 		if r := recover(); r != nil {
-			x.fail("panic", "%s panicked: %v", method, r)
+			x.fail("panic", method, "%s panicked: %v", method, r)
 		}
 	}()
 	f()
@@ -422,15 +418,15 @@ func (x *c8Exec) open(dir string, wantNew bool) {
 		return
 	}
 	if err != nil {
-		x.fail("open", "New(%s) failed: %v", filepath.Base(dir), err)
+		x.fail("open", "New failed", "New(%s) failed: %v", filepath.Base(dir), err)
 		return
 	}
 	if isNew != wantNew {
-		x.fail("open", "New reports isNew=%v, expected %v", isNew, wantNew)
+		x.fail("open", "New isNew", "New reports isNew=%v, expected %v", isNew, wantNew)
 	}
 	x.call("Init", func() { err = cl.Init(x.ctx, imap.NewIncrementalUIDValidityGenerator()) })
 	if err != nil {
-		x.fail("open", "Init failed: %v", err)
+		x.fail("open", "Init failed", "Init failed: %v", err)
 	}
 	x.client = cl
 	x.dir = dir
@@ -443,7 +439,7 @@ func (x *c8Exec) closeClient() {
 	var err error
 	x.call("Close", func() { err = x.client.Close() })
 	if err != nil {
-		x.fail("open", "Close failed: %v", err)
+		x.fail("open", "Close failed", "Close failed: %v", err)
 	}
 	x.client = nil
 }
@@ -591,7 +587,7 @@ func (x *c8Exec) group(j int, read, single bool) int {
 		})
 		x.rd = nil
 		if err != nil && !x.failed() {
-			x.fail("errclass", "Read returned %v although its callback returned nil", err)
+			x.fail("errclass", "Read", "Read returned %v although its callback returned nil", err)
 		}
 		return j
 	}
@@ -655,18 +651,18 @@ func (x *c8Exec) group(j int, read, single bool) int {
 		x.faults++
 		x.tr.Event("abort")
 		if err == nil {
-			x.fail("errclass", "Write returned nil although its callback returned an error (%v)", cbErr)
+			x.fail("errclass", "Write nil after callback error", "Write returned nil although its callback returned an error (%v)", cbErr)
 			return j
 		}
 		if !errors.Is(err, cbErr) {
-			x.fail("errclass", "Write returned %q, its callback returned %q", err, cbErr)
+			x.fail("errclass", "Write other error", "Write returned %q, its callback returned %q", err, cbErr)
 			return j
 		}
 		x.m = x.committed // a transaction that returns an error leaves no trace
 	} else {
 		x.tr.Event("commit")
 		if err != nil {
-			x.fail("errclass", "Write failed to commit: %v", err)
+			x.fail("errclass", "Write commit", "Write failed to commit: %v", err)
 			return j
 		}
 		x.committed = x.m
